@@ -5,6 +5,7 @@ import (
 	"crypto/sha256"
 	"encoding/binary"
 	"fmt"
+	"math"
 	"time"
 
 	storetypes "cosmossdk.io/store/types"
@@ -97,8 +98,11 @@ func (c11Sys) Letters(s *c11State) []engine.Letter {
 		add := func(idx, blk uint64, by string) {
 			ls = append(ls, engine.Letter{Name: fmt.Sprintf("Propose(b%d,idx=%d,l2=%d,by=%s)", b, idx, blk, by), Data: c11Propose{b, idx, blk, by}})
 		}
-		add(next, last+1, "proposer")
+		add(next, last+1, "proposer") // (wraps to 0 once the last output sits at 2^64-1: must then be refused)
 		add(next, last+3, "proposer")
+		if b == 1 && last != math.MaxUint64 {
+			add(next, math.MaxUint64, "proposer") // the largest L2 block number: nothing can follow it
+		}
 		add(next, last, "proposer")
 		if last > 0 {
 			add(next, last-1, "proposer")
@@ -336,7 +340,7 @@ func init() {
 				return res
 			}
 			res.Absorb("c11", rep)
-			res.Coverage["alphabet"] = "Propose(b∈{1,2}; idx∈{next-1,next,next+1}; l2∈{last-1,last,last+1,last+3}; by∈{proposer,stranger}), Delete(b; idx∈0..next; by∈{challenger,stranger}), Advance∈{0,4s,period=10s}"
+			res.Coverage["alphabet"] = "Propose(b∈{1,2}; idx∈{next-1,next,next+1}; l2∈{last-1,last,last+1,last+3, 2^64-1 and what wraps around after it}; by∈{proposer,stranger}), Delete(b; idx∈0..next; by∈{challenger,stranger}), Advance∈{0,4s,period=10s}"
 			res.Coverage["oracle"] = "per-bridge reference log compared with OutputProposals (full, and paged with page size 1 and 2 forward and reverse), OutputProposal and LastFinalizedOutput queries, next index and raw store in every state; acceptance implies the model's guard; rejection implies unchanged digest"
 			res.Assumptions = []string{"one message per transaction with runTx semantics (discarded on error)", "two bridges, period 10s, histories up to the completed depth"}
 			for _, k := range []string{"Propose/accepted", "Propose/rejected", "Delete/accepted-suffix=1", "Delete/accepted-suffix>=2", "Delete/rejected-final"} {
